@@ -52,6 +52,10 @@ def target_for(i, rng):
     return ("stream", cc if rng.random() < 0.5 else None)
 
 
+def L_valid_session(h):
+    return layout().valid("TPMI_SH_AUTH_SESSION", h)
+
+
 def gen_input(rng, target, knobs=None, huge=False):
     """-> dict(root, data(bytes), cc, enc, label, arms) - one well-formed input.  huge: allow the rare magnitudes of the
     knobs (a buffer of several / 32 k bytes, a list of hundreds of elements) - for properties whose runs decode the
@@ -87,9 +91,18 @@ def gen_input(rng, target, knobs=None, huge=False):
     if kind == "stream":
         n = rng.randint(1, 4)
         trees, metas = [], []
-        for j in range(n):
+        coherent = target[1] is None and rng.random() < 0.1
+        for j in range(n + (1 if coherent else 0)):
             cc = target[1] if (j == 0 and target[1] is not None) else None
-            cmd, rsp = g.exchange(cc=cc)
+            if coherent and j == 0:
+                # the capture starts with StartAuthSession; the handle it returns is the session handle of later commands
+                cmd, rsp = g.exchange(cc=0x176)
+                if rsp[4] is not None:
+                    g.session_handle = next((n_[2] for f_, n_ in rsp[4][2] if f_ == "sessionHandle" and n_[0] == "prim"), None)
+                    if g.session_handle is not None and not L_valid_session(g.session_handle):
+                        g.session_handle = None
+            else:
+                cmd, rsp = g.exchange(cc=cc)
             trees += [cmd, rsp]
             metas.append(dict(kind="command", cc=None, enc=None))
             metas.append(dict(kind="response", cc=cmd[2], enc=True if rsp[7] else None))
@@ -128,6 +141,9 @@ def bystanders(rng, n, knobs=None):
     """unrelated decode tasks that run alongside; some get cancelled half-way"""
     out = []
     for j in range(n):
+        if rng.random() < 0.12:
+            out.append(dict(id="by%d" % j, kind="api-noise", seed=rng.randrange(1 << 30), type="-", data="", cc=None, enc=None))
+            continue
         t = target_for(10 ** 9, rng)
         inp = gen_input(rng, t, knobs)
         s = spec("by%d" % j, inp, strict=rng.random() < 0.7,
@@ -184,6 +200,53 @@ def capability_exchange(rng):
         pid.to_bytes(4, "big") + rng.choice((0, 1, 4, 10, 16, 24, 32, 64, rng.randint(0, 300))).to_bytes(4, "big") for pid in chosen)
     rsp = b"\x80\x01" + (10 + len(body)).to_bytes(4, "big") + b"\x00\x00\x00\x00" + body
     return cmd, rsp
+
+
+_TINY = None
+
+
+def tiny_stream(rng, n):
+    """a capture of n exchanges of the shortest kind (a polling client, a boot log): many messages, few bytes each"""
+    global _TINY
+    if _TINY is None:
+        import random
+        r0 = random.Random(77)
+        k = gen.Knobs()
+        k.max_buf, k.max_list, k.p_sessions, k.p_fail, k.p_enc, k.p_absent = 2, 0, 0.0, 0.0, 0.0, 1.0
+        ex = []
+        for cc in sorted(layout().commands):
+            g = gen.Gen(r0, k)
+            cmd, rsp = g.exchange(cc=cc)
+            b = gen.serialise(cmd)[0] + gen.serialise(rsp)[0]
+            ex.append((len(b), cc, gen.serialise(cmd)[0], gen.serialise(rsp)[0]))
+        _TINY = sorted(ex)[:12]
+    data, bounds, metas = b"", [0], []
+    for _ in range(n):
+        _l, cc, c, r = rng.choice(_TINY)
+        data += c
+        bounds.append(len(data))
+        data += r
+        bounds.append(len(data))
+        metas += [dict(kind="command", cc=None, enc=None), dict(kind="response", cc=cc, enc=None)]
+    return dict(root=model.STREAM, data=data, cc=None, enc=None, items=None, arms=[], knobs=None, bounds=bounds, metas=metas,
+                label="tiny-stream:%d" % n)
+
+
+def fat_stream(rng, n_events):
+    """a capture with at least n_events events, nearly all of them bytes of 1 kB buffers (hashing a file through the TPM)"""
+    data, bounds, metas = b"", [0], []
+    n = 0
+    while n < n_events:
+        k = rng.choice((1000, 1024, 1024, 777))
+        c = b"\x80\x01\x00\x00\x00\x0c\x00\x00\x01\x7b" + k.to_bytes(2, "big")
+        r = b"\x80\x01" + (12 + k).to_bytes(4, "big") + b"\x00\x00\x00\x00" + k.to_bytes(2, "big") + bytes(rng.randrange(256) for _ in range(16)) * (k // 16) + b"\x00" * (k % 16)
+        for m, meta in ((c, dict(kind="command", cc=None, enc=None)), (r, dict(kind="response", cc=0x17B, enc=None))):
+            data += m
+            bounds.append(len(data))
+            metas.append(meta)
+        n += k + 14
+    return dict(root=model.STREAM, data=data, cc=None, enc=None, items=None, arms=[], knobs=None, bounds=bounds, metas=metas,
+                label="fat-stream:%d-events" % n)
 
 
 def long_stream(rng, min_bytes, knobs=None):
@@ -353,6 +416,13 @@ def stray_cc(rng, s, p=0.05):
     if s["type"] != "Response" and s.get("cc") is None and rng.random() < p:
         s["cc"] = rng.choice(sorted(layout().commands))
         s["stray_cc"] = True
+    if s["type"] == "Response" and s.get("enc") is None and rng.random() < 0.08:
+        s["enc"] = False          # "not encrypted" said explicitly instead of left out
+    # likewise the parameter_encryption argument: it means something for a lone Response (and for a parameter area decoded
+    # on its own), for everything else it must not matter
+    if s["type"] != "Response" and s["type"] not in layout().area_names() and s.get("enc") is None and rng.random() < p / 2:
+        s["enc"] = True
+        s["stray_cc"] = True
     return s
 
 
@@ -479,6 +549,10 @@ def gen_malformed(rng, i, p_wellformed=0.1, allow_random=True, huge=False):
                         recs.append(rec2)
                 return inp, data, recs, "beyond-enclosing"
     r = rng.random()
+    if rng.random() < 0.03:
+        f = F.fault_end_at_selector(data, o, rng)
+        if f:
+            return inp, f[0], f[1], "end-at-selector"
     if rng.random() < 0.06:
         f = F.fault_nested_pair(data, o, rng)
         if f:
@@ -575,7 +649,9 @@ def check_variants(case, check_one):
     """runs check_one on every variant of the case and merges the results"""
     from ..runner import Result
     res = Result()
+    from .. import watchdog
     for k, v in enumerate(case["variants"]):
+        watchdog.rearm()
         sub = {kk: vv for kk, vv in case.items() if kk != "variants"}
         sub["faults"] = v["faults"]
         sub["tasks"] = [dict(t, data=v["data"]) if t["id"] == "main" else t for t in case["tasks"]]
